@@ -16,6 +16,7 @@ import (
 	"verif/props/c11"
 	"verif/props/c12"
 	"verif/props/c13"
+	"verif/props/c14"
 	"verif/props/c18"
 	"verif/props/c19"
 )
@@ -36,6 +37,7 @@ func Registry() map[string]func() *mon.Spec {
 		"C11": c11.Spec,
 		"C12": c12.Spec,
 		"C13": c13.Spec,
+		"C14": c14.Spec,
 		"C18": c18.Spec,
 		"C19": c19.Spec,
 	}
